@@ -448,6 +448,9 @@ theorem leafOk_none (i : Nat) : LeafOk none i := by
   · rename_i r heq
     have : '-' ∈ (toString i).toList := by rw [heq]; simp
     exact absurd (hd _ this) (by decide)
+  · rename_i r heq
+    have : '+' ∈ (toString i).toList := by rw [heq]; simp
+    exact absurd (hd _ this) (by decide)
   · have h2 : (String.ofList (Nat.toDigits 10 i)).toNat? = some i := by
       rw [← Nat.repr_eq_ofList_toDigits]; exact Nat.toNat?_repr i
     simp [h2]
